@@ -78,15 +78,20 @@ DiffField(A, B) ==
     ELSE IF A.reg # B.reg \/ A.act # B.act THEN "features" ELSE "pos/iou"
 RefOne(x, r) ==
     LET acc == r.ok /\ IsEdit(x.c)
-        u   == IF acc THEN Undo(r.s) ELSE [s |-> r.s, ret |-> FALSE]
-        rr  == IF acc THEN Redo(u.s) ELSE [s |-> r.s, ret |-> FALSE]
+        pt  == PrimTriple(ModelOf(x.pre), x.c)
+        u   == IF IsPrim(x.c) THEN [s |-> pt[2].s, ret |-> pt[2].ok]
+               ELSE IF acc THEN Undo(r.s) ELSE [s |-> r.s, ret |-> FALSE]
+        rr  == IF IsPrim(x.c) THEN [s |-> pt[3].s, ret |-> pt[3].ok]
+               ELSE IF acc THEN Redo(u.s) ELSE [s |-> r.s, ret |-> FALSE]
     IN /\ r.ok = x.ok /\ r.err = x.err /\ r.emit = x.emit
        /\ SameObs(Obs(r.s), x.post)
        /\ (acc => /\ u.ret = x.u_ret /\ SameObs(Obs(u.s), x.u_post)
                   /\ rr.ret = x.r_ret /\ SameObs(Obs(rr.s), x.r_post))
 \* bulk recomputation of track / lineage ids assigns them in an order the model does not fix
 ArbitraryIds(c) == c[1] = KEnable /\ c[3] = 1 /\ ({"tid", "lid"} \cap FeatSet(c[2]) # {})
-Refines(x) == ArbitraryIds(x.c) \/ \E r \in StepSet(ModelOf(x.pre), x.c) : RefOne(x, r)
+\* primitives are modelled (and judged) under their documented preconditions only
+OutsidePre(x) == IsPrim(x.c) /\ ~PrimPre(x.pre, x.c)
+Refines(x) == ArbitraryIds(x.c) \/ OutsidePre(x) \/ \E r \in StepSet(ModelOf(x.pre), x.c) : RefOne(x, r)
 DriftWhat(x) ==
     LET r == CHOOSE q \in StepSet(ModelOf(x.pre), x.c) : TRUE
     IN IF r.ok # x.ok \/ r.err # x.err THEN <<"outcome", r.err>>
@@ -109,7 +114,7 @@ Report ==
     IF ~InUniverse(Rec.pre) THEN PrintT(<<"SKIP", i>>)
     ELSE
     /\ Bump(1)
-    /\ Rep("C01", 11, PFValid(x.pf) /\ Accepted(x), P_C01(x))
+    /\ Rep("C01", 11, PFValid(x.pf) /\ Accepted(x) /\ (IsPrim(x.c) => PrimPre(x.pre, x.c)), P_C01(x))
     /\ Rep("C03", 13, x.pf.forest /\ (Conflicting(x.pre, x.c) \/ (Accepted(x) /\ x.pre.E # x.post.E)),
                       P_C03(x) /\ ((x.pf.forest /\ Accepted(x)) => Forest(x.u_post) /\ Forest(x.r_post)))
     /\ Rep("C04", 14, x.pf.forest /\ x.pf.tid /\ Accepted(x) /\ x.pre.tid # x.post.tid,
